@@ -87,6 +87,10 @@ pub trait Check {
     fn run(&mut self, ctx: &WorkerCtx, i: u64) -> RunReport;
     /// Re-run a recorded case; returns the violations it shows (signature must match to count).
     fn replay(&mut self, ctx: &WorkerCtx, case: &J) -> Vec<Violation>;
+    /// The case run `i` executes, written out (for triage of fatal runs, which are identified by index).
+    fn describe(&mut self, _ctx: &WorkerCtx, _i: u64) -> J {
+        J::Null
+    }
 }
 
 // ---------------------------------------------------------------------------------------------
